@@ -4,7 +4,7 @@
 id=$1; shift
 cd /repo || exit 2
 if ! git diff --quiet; then echo "/repo has uncommitted changes"; exit 2; fi
-if ! git apply --3way /verif/seeded/$id/patch.diff 2>/tmp/apply.err; then echo "patch does not apply: $(cat /tmp/apply.err | tail -2)"; git checkout -q -- . ; git reset -q; exit 3; fi
+if ! git apply --3way /verif/seeded/$id/patch.diff 2>/tmp/apply.err; then echo "patch does not apply: $(tail -2 /tmp/apply.err)"; git reset -q --hard HEAD; exit 3; fi
 git reset -q
 for p in "$@"; do
   out=$(cd /verif && ./check.sh $p quick 2>&1)
